@@ -350,6 +350,10 @@ where
     stream: Fuse<S>,
     buffer: BufDeque,
     pending_len: Option<usize>,
+    // An item that failed to parse after other items were already parsed in the same poll. Those
+    // items are returned first and the error is reported by the next poll, so the items that
+    // precede an invalid one are delivered no matter how the input was chunked.
+    pending_err: Option<io::Error>,
     phantom_data: PhantomData<T>,
 }
 
@@ -364,6 +368,7 @@ where
             stream: stream.fuse(),
             buffer: BufDeque::new(),
             pending_len: None,
+            pending_err: None,
             phantom_data: PhantomData,
         }
     }
@@ -381,6 +386,9 @@ where
 
     fn poll_next(self: Pin<&mut Self>, cx: &mut Context<'_>) -> Poll<Option<Self::Item>> {
         let mut this = self.project();
+        if let Some(err) = this.pending_err.take() {
+            return Poll::Ready(Some(Err(err)));
+        }
         let mut available_len = 0;
         let mut consumed_len = 0;
         let mut items = Vec::new();
@@ -413,10 +421,12 @@ where
                         // need to flush (rather than discard) pending `items` from before the
                         // error.
                         Err(err) => {
-                            return Poll::Ready(Some(Err(io::Error::new(
-                                io::ErrorKind::InvalidData,
-                                err,
-                            ))));
+                            let err = io::Error::new(io::ErrorKind::InvalidData, err);
+                            if items.is_empty() {
+                                return Poll::Ready(Some(Err(err)));
+                            }
+                            *this.pending_err = Some(err);
+                            return Poll::Ready(Some(Ok(items)));
                         }
                     }
                 }
